@@ -316,7 +316,13 @@ def oracle(ctx: Ctx) -> None:
         ctx.hit(f"cli:rc={res['rc']}" if res["exc"] is None else f"cli:{res['exc']}")
         if n % 25 == 1:
             ctx.sample({"kind": kind, "model": str(model), "target": target, "rc": res["rc"], "stderr": res["stderr"][:200]})
-        for sig, what in judge(res):
+        verdicts = judge(res)
+        if kind == "multi-error" and res["exc"] is None:
+            # two independent errors (nested optional at line 2, list of optionals at line 9): both must be reported
+            for ln in ("line 2 ", "line 9 "):
+                if ln not in res["stderr"]:
+                    verdicts.append(("C03:error-dropped:multi-error", f"the independent error at {ln.strip()} is not in the report: {res['stderr'][:300]!r}"))
+        for sig, what in verdicts:
             ctx.fail({"kind": kind, "model": str(model), "target": target, "snippets": str(snippets)}, what, sig)
         if isinstance(out, pathlib.Path) and out.is_dir():
             shutil.rmtree(out, ignore_errors=True)
